@@ -550,7 +550,7 @@ _api = [H("core_units", "api::" + n, t, timeout=to, mem=12, mode="nomem", doc=d)
     ("keyid_hdr_cross_sid_from_pid", "t", 1200, "KeyId<Secret> rejects k4.pid."), ("keyid_hdr_cross_sid_from_k3", "t", 1200, "KeyId<Secret> (k4) rejects k3.sid."),
     ("keyid_hdr_cross_lid_from_sid", "t", 1200, "KeyId<Local> rejects k4.sid."), ("keyid_hdr_cross_lid_from_pid", "t", 1200, "KeyId<Local> rejects k4.pid."),
     ("keyid_hdr_cross_pid_from_lid", "t", 1200, "KeyId<Public> rejects k4.lid."), ("keyid_hdr_cross_pid_from_sid", "t", 1200, "KeyId<Public> rejects k4.sid."),
-    ("keyid_hdr_kind_letter", "t", 1200, "KeyId<Secret>: symbolic kind letter, k4.?id.AAAA…: accepted iff ? == 's'"),
+    ("keyid_hdr_kind_letter", "qt", 1500, "KeyId<Secret>: symbolic kind letter, k4.?id.AAAA…: accepted iff ? == 's'"),
     ("token_shape_plain", "t", 600, "concrete companion: v4.local.AAAA accepted and re-serialised"), 
     ("token_shape_footer", "t", 600, "concrete: payload.footer"), ("token_shape_two_trailing_dots", "qt", 600, "concrete: payload.. rejected"),
     ("token_shape_footer_trailing_dot", "qt", 600, "concrete: payload.footer. rejected"), ("token_shape_three_segments", "t", 600, "concrete: three segments rejected"),
@@ -669,7 +669,7 @@ for _h in PROPS["C04"].harnesses + PROPS["C09"].harnesses:
         keep = ("l0_" in n or any(n.endswith(x) for x in ("strict_n0", "strict_n2", "strict_n3", "strict_n4", "strict_n5", "strict_n6", "small_dst", "roundtrip_empty",
                 "roundtrip_n1", "roundtrip_n2", "roundtrip_n3", "roundtrip_n4", "agrees_n2", "agrees_n3", "keytext_local_t0", "keytext_local_t2", "keytext_local_t3",
                 "pie_local_t2", "pw_local_t2", "seal_t2", "token_shape_two_trailing_dots", "token_shape_footer_trailing_dot", "token_p2_nodot", "token_p2_dot_f1", "key_fromstr_is_keytext_then_decode", "l3_unseal_exact_p3_f0_a0",
-                "seal_hdr_t0", "token_hdr_p0_nodot", "keyid_hdr_cross_sid_from_lid")))
+                "seal_hdr_t0", "token_hdr_p0_nodot", "keyid_hdr_cross_sid_from_lid", "keyid_hdr_kind_letter")))
         if not keep:
             _h.tiers = "t"
 
